@@ -1173,7 +1173,16 @@ class MachineNode(StateNode[TContext, TEvent]):
         self.initial_context = raw_context
         #: Upper bound on microsteps when settling transient ("always")
         #: transitions, mirroring XState's `maxIterations` (v5.31.0).
-        self.max_iterations: int = int(config.get("maxIterations", 1000))
+        raw_max_iterations = config.get("maxIterations", 1000)
+        try:
+            if isinstance(raw_max_iterations, bool):
+                raise TypeError("bool")
+            self.max_iterations: int = int(raw_max_iterations)
+        except (TypeError, ValueError):
+            raise InvalidConfigError(
+                f"Machine '{config.get('id')}' has an invalid 'maxIterations' value "
+                f"{raw_max_iterations!r}. Expected an integer."
+            ) from None
         #: Machine-level output declaration, resolved when a top-level final
         #: state is reached.
         self.machine_output: Any = config.get("output")
